@@ -15,6 +15,13 @@
 //! only, and does not depend on the implementor's size. The table is built either for `dyn Obj` or
 //! for `dyn Sub` (a trait with supertraits), chosen by the case.
 //!
+//! The iterators implement `next` only; every other `Iterator` method a user may call (`nth`,
+//! `skip`, `step_by`, `take`, `last`, `count`, `fold`, `for_each`, `collect`, `size_hint`, `zip`,
+//! `by_ref` + `next`) is exercised too (`meta nth` / `hint` / `run` / `zip`) and must give what the
+//! sequence of `next` calls gives: the oracle reckons it from the list of registered types in
+//! first-registration order filtered by presence (`Reck`, `reckon`), the model defines it from its
+//! `next` (`advanceBy`, `nth`, `adNext`, `collectVia`, `lastVia`, `countVia`, `zipN`).
+//!
 //! Case format = the request lines themselves (`meta reg 3`, `meta next 0`, ...). Guards and
 //! iterators are addressed by position among the live ones (`k mod n`), so every sub-sequence of
 //! a case is again a case (needed for shrinking).
@@ -81,6 +88,80 @@ fn desc(t: u32) -> String {
 // ---------------------------------------------------------------------------------------------
 // operations
 
+/// the adapters of `core::iter` an iteration is driven through
+#[derive(Clone, Copy, Debug, PartialEq, Eq)]
+pub enum Adapter {
+    Plain,
+    Skip(u32),
+    /// argument > 0
+    StepBy(u32),
+    Take(u32),
+}
+impl Adapter {
+    fn word(&self) -> String {
+        match self {
+            Adapter::Plain => "plain".into(),
+            Adapter::Skip(n) => format!("skip:{}", n),
+            Adapter::StepBy(n) => format!("stepby:{}", n),
+            Adapter::Take(n) => format!("take:{}", n),
+        }
+    }
+    fn parse(w: &str) -> Option<Adapter> {
+        let mut p = w.split(':');
+        let (a, n) = (p.next()?, p.next().map(|x| x.parse::<u32>()));
+        match (a, n) {
+            ("plain", None) => Some(Adapter::Plain),
+            ("skip", Some(Ok(n))) => Some(Adapter::Skip(n)),
+            ("stepby", Some(Ok(n))) if n > 0 => Some(Adapter::StepBy(n)),
+            ("take", Some(Ok(n))) => Some(Adapter::Take(n)),
+            _ => None,
+        }
+    }
+    fn text(&self) -> String {
+        match self {
+            Adapter::Plain => "".into(),
+            Adapter::Skip(n) => format!(".skip({})", n),
+            Adapter::StepBy(n) => format!(".step_by({})", n),
+            Adapter::Take(n) => format!(".take({})", n),
+        }
+    }
+}
+/// the consuming methods
+#[derive(Clone, Copy, Debug, PartialEq, Eq)]
+pub enum Consumer {
+    /// `collect::<Vec<_>>()`
+    Collect,
+    /// `for_each(|x| v.push(x))` with `v` outside the call: what was pushed survives a panic
+    ForEach,
+    /// `fold(Vec::new(), |mut v, x| { v.push(x); v })`
+    Fold,
+    Last,
+    Count,
+}
+impl Consumer {
+    fn word(&self) -> &'static str {
+        match self {
+            Consumer::Collect => "collect",
+            Consumer::ForEach => "foreach",
+            Consumer::Fold => "fold",
+            Consumer::Last => "last",
+            Consumer::Count => "count",
+        }
+    }
+    fn parse(w: &str) -> Option<Consumer> {
+        [Consumer::Collect, Consumer::ForEach, Consumer::Fold, Consumer::Last, Consumer::Count].into_iter().find(|c| c.word() == w)
+    }
+    fn text(&self) -> &'static str {
+        match self {
+            Consumer::Collect => ".collect::<Vec<_>>()",
+            Consumer::ForEach => ".for_each(|x| v.push(x))",
+            Consumer::Fold => ".fold(Vec::new(), |mut v, x| { v.push(x); v })",
+            Consumer::Last => ".last()",
+            Consumer::Count => ".count()",
+        }
+    }
+}
+
 #[derive(Clone, Debug, PartialEq, Eq)]
 pub enum Op {
     Reg(u32),
@@ -96,6 +177,14 @@ pub enum Op {
     IterMut,
     Next(u32),
     Collect(u32),
+    /// `Iterator::nth(n)` on a live iterator
+    Nth(u32, u32),
+    /// `size_hint()` of a live iterator
+    Hint(u32),
+    /// a consuming call through an adapter, on the iterator itself (`own`) or on `by_ref()`
+    Run { k: u32, ad: Adapter, co: Consumer, own: bool },
+    /// the iterator zipped with a fresh `iter` (false) / `iter_mut` (true), collected
+    Zip(u32, bool),
     DropIt(u32),
     End,
     /// the switch the lawful-until-armed casts look at
@@ -119,6 +208,10 @@ impl Op {
             Op::IterMut => "meta itermut".into(),
             Op::Next(k) => format!("meta next {}", k),
             Op::Collect(k) => format!("meta collect {}", k),
+            Op::Nth(k, n) => format!("meta nth {} {}", k, n),
+            Op::Hint(k) => format!("meta hint {}", k),
+            Op::Run { k, ad, co, own } => format!("meta run {} {} {} {}", k, ad.word(), co.word(), *own as u32),
+            Op::Zip(k, m) => format!("meta zip {} {}", k, *m as u32),
             Op::DropIt(k) => format!("meta dropit {}", k),
             Op::End => "meta end".into(),
             Op::Arm(b) => format!("meta arm {}", *b as u32),
@@ -155,6 +248,15 @@ impl Op {
                 ("next", 2) => n(1).map(Op::Next),
                 ("collect", 2) => n(1).map(Op::Collect),
                 ("dropit", 2) => n(1).map(Op::DropIt),
+                ("nth", 3) => n(1).and_then(|k| n(2).map(|m| Op::Nth(k, m))),
+                ("hint", 2) => n(1).map(Op::Hint),
+                ("zip", 3) => n(1).and_then(|k| ty(2, 1).map(|m| Op::Zip(k, m == 1))),
+                ("run", 5) => n(1).and_then(|k| {
+                    let ad = Adapter::parse(ws[2])?;
+                    let co = Consumer::parse(ws[3])?;
+                    let own = ty(4, 1)?;
+                    Some(Op::Run { k, ad, co, own: own == 1 })
+                }),
                 ("end", 1) => Some(Op::End),
                 _ => panic!("meta engine: cannot parse case line {:?}", l),
             };
@@ -450,6 +552,285 @@ fn real_next<'a, K: Kind>(it: &mut It<'a, K>) -> Result<Option<Item<'a, K>>, Str
     .map_err(|p| panic_message(&p))
 }
 
+/// what the engine sees of an item without reading through it
+struct Seen {
+    tag: u32,
+    addr: usize,
+    own: bool,
+    /// the address is the one of the resource the item is expected to be (else: the one it claims to be)
+    same: bool,
+    cell: Option<Cell>,
+}
+impl Seen {
+    fn obs(&self) -> String {
+        format!("item {} {}", self.tag, if self.same { "same" } else { "moved" })
+    }
+}
+fn look<K: Kind>(item: &Item<'_, K>, at: Option<u32>, sh: &Shadow) -> Seen {
+    let tag = item.obj().tag();
+    let addr = item.obj().addr();
+    let own = K::own_ok(item.d());
+    // the resource the call was to stop at (if any); otherwise the one the object claims to be
+    let cell_ty = at.or(if (tag as usize) < NTY { Some(tag) } else { None });
+    let cell = cell_ty.and_then(|t| sh.present[t as usize]);
+    let same = cell.map(|c| c.addr == addr).unwrap_or(false);
+    Seen { tag, addr, own, same, cell }
+}
+
+/// `call` returned normally (`did`) where the specification demands the panic `p` at the resource of type `t`
+fn must_panic(call: &str, p: &str, t: u32, did: &str, why: &str, cx: &mut Cx) {
+    if p == "panic badcast" {
+        cx.bad("badcast-not-rejected", format!("{} {} for the resource of type {} whose CastFrom changes the address: it must panic with \"Bug: `CastFrom` did not cast `self`\"{}", call, did, desc(t), why));
+    } else {
+        cx.bad("borrow-rule", format!("{} {} where it must panic (`{}`) at type {}: cell shared×{} excl={}{}", call, did, p, desc(t), cx.sh.sh.get(t as usize).copied().unwrap_or(0), cx.sh.ex.get(t as usize).copied().unwrap_or(false), why));
+    }
+}
+
+// ---------------------------------------------------------------------------------------------
+// the provided `Iterator` methods: the harness's own reckoning
+//
+// `MetaIter` / `MetaIterMut` are iterators over L = the registered types in first-registration
+// order that are present, from the cursor on. Every provided method is specified by which
+// elements of L it examines (borrows, in order: a conflicting or wrong-cast one makes the call
+// panic there), which of them it hands out, and which it drops on the way.
+
+/// borrow flags while a call is reckoned: the engine's guards plus what the call keeps so far
+struct Reck {
+    tsh: [u32; NTY],
+    tex: [bool; NTY],
+    skipped_absent: bool,
+}
+enum Pull {
+    Item(u32),
+    None,
+    Panic(&'static str, u32),
+}
+impl Reck {
+    fn new(sh: &Shadow) -> Reck {
+        Reck { tsh: sh.sh, tex: sh.ex, skipped_absent: false }
+    }
+    /// the next `d + 1` elements of L from slot `*pos` on are examined, the last one is handed out
+    fn pull(&mut self, sh: &Shadow, pos: &mut usize, excl: bool, d: usize) -> Pull {
+        let mut need = d + 1;
+        while *pos < sh.order.len() {
+            let t = sh.order[*pos] as usize;
+            *pos += 1;
+            if sh.present[t].is_none() {
+                self.skipped_absent = true;
+                continue;
+            }
+            if self.tex[t] || (excl && self.tsh[t] > 0) {
+                return Pull::Panic("panic borrowed", t as u32);
+            }
+            if sh.moves(t) {
+                return Pull::Panic("panic badcast", t as u32);
+            }
+            need -= 1;
+            if need == 0 {
+                return Pull::Item(t as u32);
+            }
+        }
+        Pull::None
+    }
+    fn keep(&mut self, t: u32, excl: bool) {
+        if excl {
+            self.tex[t as usize] = true
+        } else {
+            self.tsh[t as usize] += 1
+        }
+    }
+    fn release(&mut self, t: u32, excl: bool) {
+        if excl {
+            self.tex[t as usize] = false
+        } else {
+            self.tsh[t as usize] -= 1
+        }
+    }
+}
+/// `next` of an adapter in terms of L
+struct AdState {
+    ad: Adapter,
+    first: bool,
+    left: u32,
+}
+impl AdState {
+    fn new(ad: Adapter) -> AdState {
+        AdState { ad, first: true, left: if let Adapter::Take(n) = ad { n } else { 0 } }
+    }
+    fn pull(&mut self, rk: &mut Reck, sh: &Shadow, pos: &mut usize, excl: bool) -> Pull {
+        let first = std::mem::replace(&mut self.first, false);
+        match self.ad {
+            Adapter::Plain => rk.pull(sh, pos, excl, 0),
+            // the first `n` elements are dropped
+            Adapter::Skip(n) => rk.pull(sh, pos, excl, if first { n as usize } else { 0 }),
+            // the first element, then every `n`-th
+            Adapter::StepBy(n) => rk.pull(sh, pos, excl, if first { 0 } else { n as usize - 1 }),
+            // after `n` elements the iterator is not asked again
+            Adapter::Take(_) => {
+                if self.left == 0 {
+                    Pull::None
+                } else {
+                    self.left -= 1;
+                    rk.pull(sh, pos, excl, 0)
+                }
+            }
+        }
+    }
+}
+#[derive(Clone, Copy, Debug, PartialEq, Eq)]
+enum How {
+    Nth(u32),
+    Run(Adapter, Consumer, bool),
+    Zip(bool),
+}
+/// what a call must do
+struct ExpRun {
+    /// the items alive afterwards, in the order they are handed out: (type, exclusive)
+    kept: Vec<(u32, bool)>,
+    /// (kind, type it happens at)
+    panic: Option<(&'static str, u32)>,
+    /// number of elements the adapter hands to the consumer
+    count: usize,
+    /// cursor afterwards
+    npos: usize,
+}
+fn reckon(sh: &Shadow, rk: &mut Reck, pos: usize, excl: bool, how: How) -> ExpRun {
+    let mut e = ExpRun { kept: vec![], panic: None, count: 0, npos: pos };
+    let mut pos = pos;
+    let mut unwind = false;
+    match how {
+        How::Nth(n) => match rk.pull(sh, &mut pos, excl, n as usize) {
+            Pull::Item(t) => e.kept.push((t, excl)),
+            Pull::None => {}
+            Pull::Panic(p, t) => e.panic = Some((p, t)),
+        },
+        How::Run(ad, co, _) => {
+            let mut st = AdState::new(ad);
+            unwind = co != Consumer::ForEach;
+            loop {
+                match st.pull(rk, sh, &mut pos, excl) {
+                    Pull::None => break,
+                    Pull::Panic(p, t) => {
+                        e.panic = Some((p, t));
+                        break;
+                    }
+                    Pull::Item(t) => {
+                        e.count += 1;
+                        match co {
+                            Consumer::Collect | Consumer::ForEach | Consumer::Fold => e.kept.push((t, excl)),
+                            Consumer::Last => e.kept = vec![(t, excl)],
+                            Consumer::Count => {}
+                        }
+                    }
+                }
+            }
+        }
+        How::Zip(exclb) => {
+            let mut posb = 0;
+            loop {
+                // `Zip::next`: `let x = a.next()?; let y = b.next()?; Some((x, y))` — `x` is
+                // alive while `b` is asked
+                let x = match rk.pull(sh, &mut pos, excl, 0) {
+                    Pull::None => break,
+                    Pull::Panic(p, t) => {
+                        e.panic = Some((p, t));
+                        break;
+                    }
+                    Pull::Item(t) => t,
+                };
+                rk.keep(x, excl);
+                match rk.pull(sh, &mut posb, exclb, 0) {
+                    Pull::None => {
+                        rk.release(x, excl);
+                        break;
+                    }
+                    Pull::Panic(p, t) => {
+                        rk.release(x, excl);
+                        e.panic = Some((p, t));
+                        break;
+                    }
+                    Pull::Item(y) => {
+                        rk.keep(y, exclb);
+                        e.kept.push((x, excl));
+                        e.kept.push((y, exclb));
+                        e.count += 1;
+                    }
+                }
+            }
+            // what the pairs hold is already in `rk`; undo it if the call unwinds
+            if e.panic.is_some() {
+                for (t, x) in e.kept.drain(..) {
+                    rk.release(t, x);
+                }
+            }
+            e.npos = pos;
+            return e;
+        }
+    }
+    // a panic unwinds through `collect` / `fold` / `last`: the partial result is dropped
+    if e.panic.is_some() && unwind {
+        e.kept.clear();
+    }
+    for (t, x) in &e.kept {
+        rk.keep(*t, *x);
+    }
+    e.npos = pos;
+    e
+}
+
+/// what a real call returned (the items themselves are in the sink)
+#[derive(Debug)]
+enum Ret {
+    Items,
+    One(bool),
+    Count(usize),
+    Pairs,
+}
+fn consume<'a, K: Kind, X, I: Iterator<Item = X>, W: Fn(X) -> Item<'a, K>>(it: I, wrap: W, co: Consumer, sink: &mut Vec<Item<'a, K>>) -> Ret {
+    match co {
+        Consumer::Collect => {
+            let v: Vec<X> = it.collect();
+            sink.extend(v.into_iter().map(wrap));
+            Ret::Items
+        }
+        Consumer::ForEach => {
+            it.for_each(|x| sink.push(wrap(x)));
+            Ret::Items
+        }
+        Consumer::Fold => {
+            let v = it.fold(Vec::new(), |mut v: Vec<X>, x| {
+                v.push(x);
+                v
+            });
+            sink.extend(v.into_iter().map(wrap));
+            Ret::Items
+        }
+        Consumer::Last => {
+            let l = it.last();
+            let some = l.is_some();
+            sink.extend(l.map(wrap));
+            Ret::One(some)
+        }
+        Consumer::Count => Ret::Count(it.count()),
+    }
+}
+fn adapt<'a, K: Kind, X, I: Iterator<Item = X>, W: Fn(X) -> Item<'a, K>>(it: I, wrap: W, ad: Adapter, co: Consumer, sink: &mut Vec<Item<'a, K>>) -> Ret {
+    match ad {
+        Adapter::Plain => consume::<K, _, _, _>(it, wrap, co, sink),
+        Adapter::Skip(n) => consume::<K, _, _, _>(it.skip(n as usize), wrap, co, sink),
+        Adapter::StepBy(n) => consume::<K, _, _, _>(it.step_by(n as usize), wrap, co, sink),
+        Adapter::Take(n) => consume::<K, _, _, _>(it.take(n as usize), wrap, co, sink),
+    }
+}
+fn zip_collect<'a, K: Kind, X, Y, A: Iterator<Item = X>, B: Iterator<Item = Y>>(a: A, b: B, wa: impl Fn(X) -> Item<'a, K>, wb: impl Fn(Y) -> Item<'a, K>, sink: &mut Vec<Item<'a, K>>) -> Ret {
+    let v: Vec<(X, Y)> = a.zip(b).collect();
+    for (x, y) in v {
+        sink.push(wa(x));
+        sink.push(wb(y));
+    }
+    Ret::Pairs
+}
+
 struct Phase<'a, K: Kind> {
     world: &'a World,
     table: &'a Tbl<K>,
@@ -525,75 +906,257 @@ impl<'a, K: Kind> Phase<'a, K> {
             Ok(Some(item)) => {
                 cx.count("next_item");
                 cx.res.items += 1;
-                let tag = item.obj().tag();
-                let addr = item.obj().addr();
-                let own = K::own_ok(item.d());
-                // the resource the call was to stop at (if any); otherwise the one the object claims to be
-                let cell_ty = at.or(if (tag as usize) < NTY { Some(tag) } else { None });
-                let cell = cell_ty.and_then(|t| cx.sh.present[t as usize]);
-                let same = cell.map(|c| c.addr == addr).unwrap_or(false);
-                let obs = format!("item {} {}", tag, if same { "same" } else { "moved" });
+                let seen = look::<K>(&item, at, &cx.sh);
+                let obs = seen.obs();
+                let call = format!("{}.next()", kind);
                 match &exp {
                     Exp::Item(t) => {
-                        let tu = *t as usize;
-                        let want = cx.sh.vt(tu);
-                        if tag != want {
-                            let class = if self.iters[k].yielded.contains(&tag) { "duplicate" } else { "order-or-vtable" };
-                            cx.bad(class, format!("{}.next() yielded an object running the methods of type {} (address {}), expected the resource of type {} next, with the methods of type {} (first-registration order {:?}, present {:?}, yielded so far {:?})", kind, tag, if same { "of the expected resource" } else { "of something else" }, desc(*t), want, cx.sh.order, present_list(&cx.sh), self.iters[k].yielded));
-                        } else if !own {
-                            cx.bad("supertrait-vtable", format!("{}.next() on a table for {}: the item for type {} answers the trait's own method and the inherited one inconsistently", kind, K::NAME, desc(*t)));
-                        } else if !same {
-                            cx.bad("address", format!("{}.next() yielded type {} at address {:#x}, the resource lives at {:#x}", kind, desc(*t), addr, cell.map(|c| c.addr).unwrap_or(0)));
-                        } else {
-                            let c = cell.unwrap();
-                            let mut item = item;
-                            if want == *t {
-                                let st = item.obj().stamp();
-                                if st != c.stamp {
-                                    cx.bad("value", format!("{}.next(): item of type {} reads stamp {}, the resource holds {}", kind, desc(*t), st, c.stamp));
-                                    return obs;
-                                } else if let Item::Ex(r) = &mut item {
-                                    // write through the exclusive item; checked at every later read
-                                    K::obj_mut(&mut **r).bump();
-                                    if !is_zst(tu) {
-                                        cx.sh.present[tu].as_mut().unwrap().stamp += 1;
-                                    }
-                                }
-                            } else {
-                                // same address, another type's methods (declared so): accepted by
-                                // the address check; nothing is read or written through it
-                                cx.count("accepted_same_address_other_vtable");
-                            }
+                        let y = std::mem::take(&mut self.iters[k].yielded);
+                        let ok = self.accept_item(item, &seen, *t, excl, &y, &call, cx);
+                        self.iters[k].yielded = y;
+                        if ok {
                             if excl {
-                                cx.sh.ex[tu] = true;
+                                cx.sh.ex[*t as usize] = true;
                             } else {
-                                cx.sh.sh[tu] += 1;
+                                cx.sh.sh[*t as usize] += 1;
                             }
                             self.iters[k].yielded.push(*t);
-                            self.guards.push((*t, excl, match item {
-                                Item::Sh(r) => Box::new(r) as Guard<'a>,
-                                Item::Ex(r) => Box::new(r) as Guard<'a>,
-                            }));
-                            return obs;
                         }
                     }
                     Exp::None => {
-                        let class = if self.iters[k].yielded.contains(&tag) { "duplicate" } else { "extra" };
-                        cx.bad(class, format!("{}.next() yielded an object with the methods of type {} but every registered present type was already yielded ({:?}); registrations {:?}", kind, tag, self.iters[k].yielded, cx.sh.regs));
+                        let class = if self.iters[k].yielded.contains(&seen.tag) { "duplicate" } else { "extra" };
+                        cx.bad(class, format!("{} yielded an object with the methods of type {} but every registered present type was already yielded ({:?}); registrations {:?}", call, seen.tag, self.iters[k].yielded, cx.sh.regs));
                     }
-                    Exp::Panic(p) => {
-                        let t = at.unwrap_or(tag);
-                        if *p == "panic badcast" {
-                            cx.bad("badcast-not-rejected", format!("{}.next() yielded an item (methods of type {}, address {}) for the resource of type {} whose CastFrom changes the address: it must panic with \"Bug: `CastFrom` did not cast `self`\"", kind, tag, if same { "of the resource" } else { "of something else" }, desc(t)));
-                        } else {
-                            cx.bad("borrow-rule", format!("{}.next() yielded type {} where it must panic (`{}`): cell shared×{} excl={}", kind, desc(t), p, cx.sh.sh.get(t as usize).copied().unwrap_or(0), cx.sh.ex.get(t as usize).copied().unwrap_or(false)));
-                        }
-                    }
+                    Exp::Panic(p) => must_panic(&call, p, at.unwrap_or(seen.tag), &format!("yielded an item (methods of type {}, address {})", seen.tag, if seen.same { "of the resource" } else { "of something else" }), "", cx),
                 }
-                // suspect object: never touch it again, just release it
+                // a suspect object is never touched again, just released
                 obs
             }
         }
+    }
+
+    /// The checks on one item that, by the specification, is the resource of type `t`, obtained
+    /// through `call`: methods of the right type, the trait's own methods consistent, the
+    /// resource's address, its value; an exclusive item is written through. On success the item
+    /// is kept as a guard (the borrow bookkeeping is the caller's).
+    fn accept_item(&mut self, item: Item<'a, K>, seen: &Seen, t: u32, excl: bool, yielded: &[u32], call: &str, cx: &mut Cx) -> bool {
+        let tu = t as usize;
+        let want = cx.sh.vt(tu);
+        let (tag, same, cell) = (seen.tag, seen.same, seen.cell);
+        if tag != want {
+            let class = if yielded.contains(&tag) { "duplicate" } else { "order-or-vtable" };
+            cx.bad(class, format!("{} yielded an object running the methods of type {} (address {}), expected the resource of type {} next, with the methods of type {} (first-registration order {:?}, present {:?}, yielded so far {:?})", call, tag, if same { "of the expected resource" } else { "of something else" }, desc(t), want, cx.sh.order, present_list(&cx.sh), yielded));
+            return false;
+        }
+        if !seen.own {
+            cx.bad("supertrait-vtable", format!("{} on a table for {}: the item for type {} answers the trait's own method and the inherited one inconsistently", call, K::NAME, desc(t)));
+            return false;
+        }
+        if !same {
+            cx.bad("address", format!("{} yielded type {} at address {:#x}, the resource lives at {:#x}", call, desc(t), seen.addr, cell.map(|c| c.addr).unwrap_or(0)));
+            return false;
+        }
+        let c = cell.unwrap();
+        let mut item = item;
+        if want == t {
+            let st = item.obj().stamp();
+            if st != c.stamp {
+                cx.bad("value", format!("{}: item of type {} reads stamp {}, the resource holds {}", call, desc(t), st, c.stamp));
+                return false;
+            } else if let Item::Ex(r) = &mut item {
+                // write through the exclusive item; checked at every later read
+                K::obj_mut(&mut **r).bump();
+                if !is_zst(tu) {
+                    cx.sh.present[tu].as_mut().unwrap().stamp += 1;
+                }
+            }
+        } else {
+            // same address, another type's methods (declared so): accepted by the address
+            // check; nothing is read or written through it
+            cx.count("accepted_same_address_other_vtable");
+        }
+        self.guards.push((t, excl, match item {
+            Item::Sh(r) => Box::new(r) as Guard<'a>,
+            Item::Ex(r) => Box::new(r) as Guard<'a>,
+        }));
+        true
+    }
+
+    /// One provided method (`how`) on iterator `i`, checked against the reckoning; returns the
+    /// canonical observation.
+    fn drive(&mut self, i: usize, how: How, cx: &mut Cx) -> String {
+        let (table, world): (&'a Tbl<K>, &'a World) = (self.table, self.world);
+        let excl = self.iters[i].excl;
+        let pos = self.iters[i].pos;
+        let kind = if excl { "iter_mut" } else { "iter" };
+        let own = matches!(how, How::Run(_, _, true) | How::Zip(_));
+        let call = match how {
+            How::Nth(n) => format!("{}{}.nth({})", kind, if pos > 0 { " (advanced)" } else { "" }, n),
+            How::Run(ad, co, own) => format!("{}{}{}{}{}", kind, if pos > 0 { " (advanced)" } else { "" }, if own { "" } else { ".by_ref()" }, ad.text(), co.text()),
+            How::Zip(m) => format!("{}{}.zip({}).collect::<Vec<_>>()", kind, if pos > 0 { " (advanced)" } else { "" }, if m { "iter_mut" } else { "iter" }),
+        };
+        // the harness's own reckoning
+        let mut rk = Reck::new(&cx.sh);
+        let exp = reckon(&cx.sh, &mut rk, pos, excl, how);
+        let l_before: Vec<u32> = cx.sh.order[pos.min(cx.sh.order.len())..].iter().copied().filter(|t| cx.sh.present[*t as usize].is_some()).collect();
+        if rk.skipped_absent {
+            cx.count("absent_registered_types_skipped");
+            cx.res.interesting = true;
+            if !matches!(how, How::Run(Adapter::Plain, _, _) | How::Nth(0)) {
+                cx.count("provided_method_over_an_absent_registered_type");
+            }
+        }
+        match how {
+            How::Nth(_) => cx.count("via_nth"),
+            How::Run(ad, co, own) => cx.count(&format!("via_{}_{}_{}", ad.word().split(':').next().unwrap(), co.word(), if own { "owned" } else { "by_ref" })),
+            How::Zip(m) => cx.count(&format!("via_zip_{}_{}", kind, if m { "iter_mut" } else { "iter" })),
+        }
+        // the real call
+        let mut sink: Vec<Item<'a, K>> = vec![];
+        let mut yielded: Vec<u32>;
+        let real: Result<Ret, String> = {
+            let sink = &mut sink;
+            if own {
+                let its = self.iters.remove(i);
+                yielded = its.yielded;
+                match (its.it, how) {
+                    (It::Sh(it), How::Run(ad, co, _)) => guarded(move || adapt::<K, _, _, _>(it, Item::Sh, ad, co, sink)),
+                    (It::Ex(it), How::Run(ad, co, _)) => guarded(move || adapt::<K, _, _, _>(it, Item::Ex, ad, co, sink)),
+                    (It::Sh(it), How::Zip(false)) => guarded(move || zip_collect::<K, _, _, _, _>(it, table.iter(world), Item::Sh, Item::Sh, sink)),
+                    (It::Sh(it), How::Zip(true)) => guarded(move || zip_collect::<K, _, _, _, _>(it, table.iter_mut(world), Item::Sh, Item::Ex, sink)),
+                    (It::Ex(it), How::Zip(false)) => guarded(move || zip_collect::<K, _, _, _, _>(it, table.iter(world), Item::Ex, Item::Sh, sink)),
+                    (It::Ex(it), How::Zip(true)) => guarded(move || zip_collect::<K, _, _, _, _>(it, table.iter_mut(world), Item::Ex, Item::Ex, sink)),
+                    (_, How::Nth(_)) => unreachable!(),
+                }
+            } else {
+                yielded = self.iters[i].yielded.clone();
+                match (&mut self.iters[i].it, how) {
+                    (It::Sh(it), How::Nth(n)) => guarded(move || {
+                        let x = it.nth(n as usize);
+                        let some = x.is_some();
+                        sink.extend(x.map(Item::Sh));
+                        Ret::One(some)
+                    }),
+                    (It::Ex(it), How::Nth(n)) => guarded(move || {
+                        let x = it.nth(n as usize);
+                        let some = x.is_some();
+                        sink.extend(x.map(Item::Ex));
+                        Ret::One(some)
+                    }),
+                    (It::Sh(it), How::Run(ad, co, _)) => guarded(move || adapt::<K, _, _, _>(it.by_ref(), Item::Sh, ad, co, sink)),
+                    (It::Ex(it), How::Run(ad, co, _)) => guarded(move || adapt::<K, _, _, _>(it.by_ref(), Item::Ex, ad, co, sink)),
+                    (_, How::Zip(_)) => unreachable!(),
+                }
+            }
+            .map_err(|p| panic_message(&p))
+        };
+        if matches!(how, How::Zip(_)) {
+            cx.res.masks.insert(cx.sh.mask());
+        }
+        // what was seen, without reading through anything
+        let seen: Vec<Seen> = sink.iter().enumerate().map(|(j, it)| look::<K>(it, exp.kept.get(j).map(|e| e.0), &cx.sh)).collect();
+        let moved = seen.iter().any(|s| !s.same);
+        let tags = |sep: &str| -> String {
+            if seen.is_empty() {
+                "-".into()
+            } else if sep == ":" {
+                seen.chunks(2).map(|c| c.iter().map(|s| s.tag.to_string()).collect::<Vec<_>>().join(":")).collect::<Vec<_>>().join(",")
+            } else {
+                seen.iter().map(|s| s.tag.to_string()).collect::<Vec<_>>().join(",")
+            }
+        };
+        let obs = match &real {
+            Err(m) => {
+                let p = panic_kind(m);
+                match how {
+                    How::Run(_, Consumer::Collect | Consumer::ForEach | Consumer::Fold, _) => format!("items {}{} {}", tags(","), if moved { " moved" } else { "" }, p),
+                    How::Zip(_) => format!("pairs {} {}", tags(":"), p),
+                    _ => p,
+                }
+            }
+            Ok(Ret::One(false)) => "none".to_string(),
+            Ok(Ret::One(true)) => seen.first().map(|s| s.obs()).unwrap_or_else(|| "?".into()),
+            Ok(Ret::Count(n)) => format!("count {}", n),
+            Ok(Ret::Items) => format!("items {}{} end", tags(","), if moved { " moved" } else { "" }),
+            Ok(Ret::Pairs) => format!("pairs {}{} end", tags(":"), if moved { " moved" } else { "" }),
+        };
+        let spec = format!("from the cursor on, the registered types present are {:?} (first-registration order {:?}, present {:?}); the call must {}", l_before, cx.sh.order, present_list(&cx.sh), match (&exp.panic, how) {
+            (Some((p, t)), _) => format!("`{}` at type {}", p, t),
+            (None, How::Run(_, Consumer::Count, _)) => format!("return {}", exp.count),
+            (None, How::Zip(_)) => format!("yield the pairs {:?}", exp.kept.chunks(2).map(|c| (c[0].0, c[1].0)).collect::<Vec<_>>()),
+            (None, How::Nth(_)) | (None, How::Run(_, Consumer::Last, _)) => match exp.kept.first() {
+                Some((t, _)) => format!("yield type {}", t),
+                None => "return None".to_string(),
+            },
+            (None, _) => format!("yield the types {:?}", exp.kept.iter().map(|e| e.0).collect::<Vec<_>>()),
+        });
+        // 1. how the call ended
+        match (&real, &exp.panic) {
+            (Err(m), Some((p, t))) => {
+                let got = panic_kind(m);
+                cx.count(&format!("via_{}", got.split(':').next().unwrap().replace(' ', "_")));
+                if got == *p {
+                    cx.res.interesting = true;
+                    if got == "panic badcast" {
+                        cx.count(&format!("rejected_in_{}:{}", kind, shape_key(*t)));
+                        if !m.contains("Bug: `CastFrom` did not cast `self`") {
+                            cx.bad("badcast-message", format!("{}: wrong panic message {:?}", call, m));
+                        }
+                    }
+                } else {
+                    cx.bad("wrong-panic", format!("{} panicked with {:?}, expected `{}` at type {}; {}", call, m, p, t, spec));
+                }
+            }
+            (Err(m), None) => cx.bad("unexpected-panic", format!("{} panicked ({:?}); {}", call, m, spec)),
+            (Ok(r), Some((p, t))) => must_panic(&call, p, *t, &format!("returned normally ({:?}, objects with the methods of types {:?})", r, seen.iter().map(|s| s.tag).collect::<Vec<_>>()), &format!(" — every element a provided method passes is borrowed by `next`, also the ones it drops; {}", spec), cx),
+            (Ok(_), None) => {}
+        }
+        // 2. what it handed out
+        if !cx.stop {
+            if let Ok(Ret::Count(n)) = &real {
+                if *n != exp.count {
+                    cx.bad("count", format!("{} returned {}; {}", call, n, spec));
+                }
+            }
+        }
+        if !cx.stop {
+            let got: Vec<u32> = seen.iter().map(|s| s.tag).collect();
+            let n_exp = exp.kept.len();
+            let mut it = sink.into_iter();
+            for (j, sn) in seen.iter().enumerate() {
+                let item = it.next().unwrap();
+                if j >= n_exp {
+                    let class = if yielded.contains(&sn.tag) { "duplicate" } else { "extra" };
+                    cx.bad(class, format!("{} handed out objects with the methods of types {:?}: the one at position {} must not be there; {}", call, got, j, spec));
+                    break;
+                }
+                let (t, x) = exp.kept[j];
+                let ctx = format!("{} [item {} of {:?}; {}]", call, j, got, spec);
+                if !self.accept_item(item, sn, t, x, &yielded, &ctx, cx) {
+                    break;
+                }
+                yielded.push(t);
+                cx.res.items += 1;
+            }
+            if !cx.stop && seen.len() < n_exp {
+                cx.bad("missing", format!("{} handed out objects with the methods of types {:?} only; {}", call, got, spec));
+            }
+        } else {
+            // suspect objects are never touched again, just released
+            drop(sink);
+        }
+        if !cx.stop {
+            cx.sh.sh = rk.tsh;
+            cx.sh.ex = rk.tex;
+            if exp.panic.is_none() && exp.kept.len() >= 2 {
+                cx.count("provided_method_runs_with_2+_items");
+            }
+        }
+        if !own {
+            self.iters[i].pos = exp.npos;
+            self.iters[i].yielded = yielded;
+        }
+        obs
     }
 
     fn check_get(&mut self, t: u32, which: &str, o: GetObs, cx: &mut Cx) -> String {
@@ -797,6 +1360,53 @@ impl<'a, K: Kind> Phase<'a, K> {
                         format!("items {}{} {}", if tags.is_empty() { "-".into() } else { tags.join(",") }, if moved { " moved" } else { "" }, ending)
                     }
                 }
+                Op::Nth(k, n) => {
+                    if self.iters.is_empty() {
+                        "noop".into()
+                    } else {
+                        let i = *k as usize % self.iters.len();
+                        self.drive(i, How::Nth(*n), cx)
+                    }
+                }
+                Op::Run { k, ad, co, own } => {
+                    if self.iters.is_empty() {
+                        "noop".into()
+                    } else {
+                        let i = *k as usize % self.iters.len();
+                        self.drive(i, How::Run(*ad, *co, *own), cx)
+                    }
+                }
+                Op::Zip(k, m) => {
+                    if self.iters.is_empty() {
+                        "noop".into()
+                    } else {
+                        let i = *k as usize % self.iters.len();
+                        self.drive(i, How::Zip(*m), cx)
+                    }
+                }
+                Op::Hint(k) => {
+                    if self.iters.is_empty() {
+                        "noop".into()
+                    } else {
+                        let i = *k as usize % self.iters.len();
+                        let (lo, hi) = match &self.iters[i].it {
+                            It::Sh(it) => it.size_hint(),
+                            It::Ex(it) => it.size_hint(),
+                        };
+                        // the number of items that follow: the registered types from the cursor on that are present
+                        let pos = self.iters[i].pos.min(cx.sh.order.len());
+                        let r = cx.sh.order[pos..].iter().filter(|t| cx.sh.present[**t as usize].is_some()).count();
+                        if hi.is_some() {
+                            cx.count("size_hint_with_upper_bound");
+                        }
+                        if lo <= r && hi.map(|h| r <= h).unwrap_or(true) {
+                            "hint ok".into()
+                        } else {
+                            cx.bad("size-hint", format!("{}.size_hint() = ({}, {:?}) but {} items follow (first-registration order {:?}, cursor at slot {}, present {:?})", if self.iters[i].excl { "iter_mut" } else { "iter" }, lo, hi, r, cx.sh.order, pos, present_list(&cx.sh)));
+                            "hint bad".into()
+                        }
+                    }
+                }
                 Op::DropIt(k) => {
                     if self.iters.is_empty() {
                         "noop".into()
@@ -979,6 +1589,81 @@ fn wrong_types() -> Vec<u32> {
     (0..NTY as u32).filter(|t| TYPES[*t as usize].kind != CastKind::Lawful).collect()
 }
 
+fn gen_run(rng: &mut Rng, k: u32) -> Op {
+    let ad = match rng.below(10) {
+        0..=2 => Adapter::Plain,
+        3..=5 => Adapter::Skip(rng.below(4) as u32),
+        6..=7 => Adapter::StepBy(1 + rng.below(3) as u32),
+        _ => Adapter::Take(rng.below(4) as u32),
+    };
+    let co = *rng.pick(&[Consumer::Collect, Consumer::Collect, Consumer::ForEach, Consumer::Fold, Consumer::Last, Consumer::Count]);
+    Op::Run { k, ad, co, own: rng.chance(40) }
+}
+
+/// Every subset of `tys` present, `tys[0]` and `tys[1]` registered twice: both iterators driven
+/// through every provided method (`nth`, `skip`, `step_by`, `take`, `last`, `count`, `fold`,
+/// `for_each`, `collect`, `size_hint`, `zip`, `by_ref` + `next`), on a free world and with a
+/// guard alive; then one type removed / another inserted and the iterations repeated. Run in
+/// every tier.
+fn drive_scope(todo: &mut Vec<(String, Vec<Op>)>, name: &str, tys: &[u32], trait_kind: u32) {
+    let n = tys.len();
+    for mask in 0..1u32 << n {
+        for itop in [Op::Iter, Op::IterMut] {
+            let mut ops = if trait_kind == 1 { vec![Op::Trait(1)] } else { vec![] };
+            // first-registration order = tys, with repeats
+            ops.extend([Op::Reg(tys[0]), Op::Reg(tys[1]), Op::Reg(tys[0])]);
+            for &t in &tys[2..] {
+                ops.push(Op::Reg(t));
+                ops.push(Op::Reg(tys[1]));
+            }
+            for (i, &t) in tys.iter().enumerate() {
+                if mask >> i & 1 == 1 {
+                    ops.push(Op::Ins(t));
+                }
+            }
+            let run = |ad, co, own| Op::Run { k: 0, ad, co, own };
+            let scripts = |ops: &mut Vec<Op>, full: bool| {
+                for m in 0..=n as u32 {
+                    // nth from the start, then on: the iterator goes on where nth stopped
+                    ops.extend([itop.clone(), Op::Hint(0), Op::Nth(0, m), Op::Hint(0), Op::Nth(0, 0), Op::Next(0), Op::End]);
+                }
+                ops.extend([itop.clone(), Op::Next(0), Op::Nth(0, 1), Op::Nth(0, 1), Op::End]);
+                for m in 1..n as u32 {
+                    ops.extend([itop.clone(), run(Adapter::Skip(m), Consumer::Collect, true), Op::End]);
+                    ops.extend([itop.clone(), run(Adapter::StepBy(m), if m % 2 == 1 { Consumer::ForEach } else { Consumer::Collect }, m % 2 == 0), Op::End]);
+                    ops.extend([itop.clone(), run(Adapter::Take(m), Consumer::Collect, false), Op::Hint(0), Op::Next(0), run(Adapter::Plain, Consumer::Last, true), Op::End]);
+                }
+                ops.extend([itop.clone(), run(Adapter::Plain, Consumer::Count, true), Op::End]);
+                ops.extend([itop.clone(), run(Adapter::Plain, Consumer::Fold, true), Op::End]);
+                ops.extend([itop.clone(), run(Adapter::Plain, Consumer::Collect, false), Op::Next(0), Op::End]);
+                ops.extend([itop.clone(), run(Adapter::Skip(1), Consumer::Last, true), Op::End]);
+                ops.extend([itop.clone(), Op::Next(0), run(Adapter::Skip(1), Consumer::Count, false), Op::Hint(0), Op::Next(0), Op::End]);
+                ops.extend([itop.clone(), run(Adapter::StepBy(2), Consumer::Last, false), Op::Next(0), Op::End]);
+                ops.extend([itop.clone(), run(Adapter::Take(2), Consumer::Count, false), run(Adapter::StepBy(2), Consumer::Fold, false), Op::End]);
+                ops.extend([itop.clone(), Op::Zip(0, false), Op::End]);
+                if full {
+                    ops.extend([itop.clone(), Op::Zip(0, true), Op::End]);
+                    ops.extend([itop.clone(), Op::Next(0), Op::Zip(0, false), Op::End]);
+                    // a guard alive: shared (legal for `iter`), exclusive (every call that has to
+                    // pass the resource panics there, and leaves nothing behind)
+                    ops.extend([Op::Fetch(tys[1]), itop.clone(), Op::Nth(0, 2), Op::Next(0), Op::End]);
+                    ops.extend([Op::Fetch(tys[0]), itop.clone(), run(Adapter::StepBy(2), Consumer::Collect, true), Op::End]);
+                    ops.extend([Op::FetchMut(tys[2]), itop.clone(), Op::Nth(0, 1), Op::Next(0), Op::End]);
+                    ops.extend([Op::FetchMut(tys[2]), itop.clone(), run(Adapter::Skip(1), Consumer::ForEach, false), Op::Next(0), Op::End]);
+                    ops.extend([Op::FetchMut(tys[n - 1]), itop.clone(), run(Adapter::Skip(2), Consumer::Collect, false), Op::Drop(0), Op::Next(0), Op::End]);
+                }
+            };
+            scripts(&mut ops, true);
+            // removal and re-insertion between iterations
+            ops.extend([Op::Rem(tys[1]), Op::Ins(tys[n - 1]), Op::Reg(tys[n - 1])]);
+            scripts(&mut ops, false);
+            ops.extend([Op::Ins(tys[1]), Op::Rem(tys[0])]);
+            ops.extend([itop.clone(), Op::Nth(0, 1), Op::End, itop.clone(), run(Adapter::StepBy(2), Consumer::Collect, true), Op::End, itop.clone(), run(Adapter::Skip(1), Consumer::Collect, true), Op::End]);
+            todo.push((format!("drive:{}:{}:{}:{}", name, trait_kind, mask, if itop == Op::Iter { "iter" } else { "iter_mut" }), ops));
+        }
+    }
+}
+
 fn gen_case(rng: &mut Rng, long: bool) -> Vec<Op> {
     let mut ops = vec![];
     if rng.chance(25) {
@@ -1008,6 +1693,7 @@ fn gen_case(rng: &mut Rng, long: bool) -> Vec<Op> {
         uni.push(PLAIN);
     }
     let classic = rng.chance(30);
+    let driven = !classic && rng.chance(30);
     let rounds = 1 + rng.below(3);
     for round in 0..rounds {
         let mut muts = vec![];
@@ -1028,6 +1714,39 @@ fn gen_case(rng: &mut Rng, long: bool) -> Vec<Op> {
         }
         rng.shuffle(&mut muts);
         ops.extend(muts);
+        if driven {
+            // whole iterations through the provided methods, on a world without other guards or
+            // with one guard alive; the iterator is used on (`next`) where it survives the call
+            for _ in 0..2 + rng.below(3) {
+                if has_switch && rng.chance(20) {
+                    ops.push(Op::Arm(rng.chance(50)));
+                }
+                if rng.chance(25) {
+                    let t = *rng.pick(&uni);
+                    ops.push(if rng.chance(70) { Op::Fetch(t) } else { Op::FetchMut(t) });
+                }
+                ops.push(if rng.chance(50) { Op::Iter } else { Op::IterMut });
+                for _ in 0..rng.below(3) {
+                    ops.push(match rng.below(4) {
+                        0 => Op::Next(0),
+                        1 => Op::Hint(0),
+                        _ => Op::Nth(0, rng.below(4) as u32),
+                    });
+                }
+                if rng.chance(15) {
+                    ops.push(Op::Zip(0, rng.chance(30)));
+                } else {
+                    let r = gen_run(rng, 0);
+                    let stays = matches!(r, Op::Run { own: false, .. });
+                    ops.push(r);
+                    if stays {
+                        ops.push(if rng.chance(50) { Op::Next(0) } else { gen_run(rng, 0) });
+                    }
+                }
+                ops.push(Op::End);
+            }
+            continue;
+        }
         if classic {
             // the textbook use: whole iterations on a world without other guards, then lookups
             let mut seq = vec![vec![Op::Iter, Op::Collect(0)], vec![Op::IterMut, Op::Collect(0)]];
@@ -1071,8 +1790,15 @@ fn gen_case(rng: &mut Rng, long: bool) -> Vec<Op> {
                     live_iters += 1;
                     if rng.chance(50) { Op::Iter } else { Op::IterMut }
                 }
-                12..=46 => Op::Next(k),
-                47..=53 => Op::Collect(k),
+                12..=33 => Op::Next(k),
+                34..=39 => Op::Nth(k, rng.below(4) as u32),
+                40..=45 => gen_run(rng, k),
+                46 => Op::Hint(k),
+                47..=52 => Op::Collect(k),
+                53 => {
+                    live_iters = live_iters.saturating_sub(1);
+                    Op::Zip(k, rng.chance(30))
+                }
                 54..=63 => Op::Fetch(t),
                 64..=70 => Op::FetchMut(t),
                 71..=80 => Op::Drop(k),
@@ -1203,7 +1929,7 @@ pub fn run(args: &Args, rep: &mut Report) {
     let cases = args.num("cases", 400);
     let long = args.flag("long");
     let mut drv = Drv::spawn(&args.str("driver", "/verif/lean/.lake/build/bin/driver"));
-    rep.rule = "histories of register (with repeats) / world insert+remove / get / get_mut / get on a value outside the world / iter / iter_mut / next / whole-loop collect, interleaved with try_fetch / try_fetch_mut guards of the same resources, over 40 types (listed in `types`: zero-sized / sized / Drop / aligned / generic implementors, each kind with the lawful CastFrom and with wrong ones — offset, another object of the same type, a static, a field, an object of another type, lawful until a switch is armed; 8 = does not implement the trait), on a table for `dyn Obj` or for a trait with supertraits; besides the random histories, for every type and both traits two fixed histories exercise register / get / get_mut / get outside the world / iter / iter_mut with the switch off and on; distinct = distinct (request, observed answer) histories; non-trivial = an iterator yielded at least one item and the history contains a repeated registration, a registered-but-absent type skipped, or an expected panic (borrow conflict / rejected cast)".into();
+    rep.rule = "histories of register (with repeats) / world insert+remove / get / get_mut / get on a value outside the world / iter / iter_mut / next / whole-loop collect / the provided Iterator methods (nth, size_hint, and skip / step_by / take / the iterator itself consumed by collect / for_each / fold / last / count, on the iterator or on by_ref() of it and then used on; zip with a fresh iter / iter_mut), interleaved with try_fetch / try_fetch_mut guards of the same resources, over 40 types (listed in `types`: zero-sized / sized / Drop / aligned / generic implementors, each kind with the lawful CastFrom and with wrong ones — offset, another object of the same type, a static, a field, an object of another type, lawful until a switch is armed; 8 = does not implement the trait), on a table for `dyn Obj` or for a trait with supertraits; besides the random histories, for every type and both traits two fixed histories exercise register / get / get_mut / get outside the world / iter / iter_mut with the switch off and on; for every subset present of 4 types (two of them registered repeatedly) both iterators are driven through every provided method from the start and from later cursors, on a free world and with a shared / an exclusive guard alive, before and after a removal and a re-insertion — the expected result of each call is reckoned from the list of registered types in first-registration order filtered by presence; distinct = distinct (request, observed answer) histories; non-trivial = an iterator yielded at least one item and the history contains a repeated registration, a registered-but-absent type skipped, or an expected panic (borrow conflict / rejected cast)".into();
     let mut todo: Vec<(String, Vec<Op>)> = vec![];
     if let Some(f) = args.get("replay") {
         let text = std::fs::read_to_string(&f).expect("replay file");
@@ -1224,6 +1950,8 @@ pub fn run(args: &Args, rep: &mut Report) {
     }
     if args.get("replay").is_none() {
         systematic(&mut todo);
+        // {Zst, Word, Big, Gen<u8>}: every presence subset, every provided method
+        drive_scope(&mut todo, "a", &[0, 3, 5, 13], 0);
         if args.flag("small-scope") {
             // {Zst, Byte, Big, Aligned, Evil}
             small_scope(&mut todo, "a", [0, 1, 5, 6, 7], false);
@@ -1231,6 +1959,9 @@ pub fn run(args: &Args, rep: &mut Report) {
             small_scope(&mut todo, "b", [22, 28, 32, 38, 13], true);
             // {ZstOff, ZstStat, DropTwin, ZstA64, ZstSw}
             small_scope(&mut todo, "c", [17, 26, 24, 9, 39], false);
+            // {Byte, ZstA64, DropW, Aligned, Mid}, {ZstDrop, Half, Packed, Zst, Word} on the table for `dyn Sub`
+            drive_scope(&mut todo, "b", &[1, 9, 11, 6, 4], 0);
+            drive_scope(&mut todo, "c", &[10, 2, 12, 0, 3], 1);
         }
         for c in 0..cases {
             let mut rng = Rng::new(seed, c);
